@@ -53,6 +53,14 @@ func main() {
 		for _, m := range mutants {
 			fmt.Printf("%s\t%s\t%s\n", m.Name, m.Property, m.File)
 		}
+	case "explore":
+		c, err := Load(nil)
+		if err != nil {
+			fmt.Println(err)
+			os.Exit(1)
+		}
+		explore(c, os.Args[2])
+		exploreRule(c, os.Args[2])
 	case "selftest":
 		prop := ""
 		if len(os.Args) > 2 {
